@@ -90,6 +90,7 @@ class Engine:
         self.restore_state = True       # library module state is put back before every path (symrun/state.py)
         self.n_state_restores = 0
         self.n_reordered = 0
+        self.mute = False
         import os as _os
         self.debug_fork = bool(_os.environ.get('SYMRUN_DEBUG_DIVERGE'))
 
@@ -127,6 +128,7 @@ class Engine:
             self.prefix_notes = prefix_notes
             self.dec_notes = []
             self.next_note = None
+            self.mute = False
             self.decisions = []
             self.dec_hashes = []
             self.symstore = {}             # id(dict) -> (dict, [(symbolic key, value)]): stores under a symbolic key on this path
@@ -396,6 +398,11 @@ class Engine:
             prop = prop.term
         if isinstance(prop, bool):
             prop = z3.BoolVal(prop)
+        if self.mute:
+            # a priming run (hc.Runner.prime): the code runs for the state it leaves behind, its clauses are not obligations
+            ob = Obligation(label, [], prop, info, self.path.pid)
+            ob.status = 'trivial'
+            return ob
         ob = Obligation(label, list(self.pc) + self._side_axioms(), prop, info, self.path.pid)
         self.path.obligations.append(ob)
         sp = z3.simplify(prop)
